@@ -633,7 +633,7 @@ def reach_ids(v, out=None):
 POSITIONS = ['fill', 'coalesce-default', 'call-arg', 'call-kwarg', 't-call-arg', 's-binding', 'assign-value',
              'match-default', 'switch-default', 'and-default', 'or-default', 'check-default', 'invoke-spec-arg',
              'fill>coalesce-default', 'fill>call-arg', 'fill>call-kwarg', 'fill>s-binding', 'fill>t-call-arg', 'match>call-arg',
-             'first-default']
+             'first-default', 'match>invoke-kwarg-spec', 'group>invoke-kwarg-spec']
 
 
 class _ItemsOf(dict):
@@ -687,6 +687,11 @@ def eval_in_position(position, shape_spec):
         # the target handed to the default is the First spec's own target (here: the dict's 'items' list wrapped so that T['a'] still reads 'a')
         from glom.streaming import First
         return glom(t, (lambda d: _ItemsOf(d), First(key=lambda item: False, default=shape_spec)))
+    # keyword specs of Invoke are specs of their own, whatever mode the Invoke stands in (the keyword dict is not a dict spec)
+    if position == 'match>invoke-kwarg-spec':
+        return glom(t, Match(Invoke(lambda x=None: x).specs(x=Fill(shape_spec))))
+    if position == 'group>invoke-kwarg-spec':
+        return glom([t], Group([Invoke(lambda x=None: x).specs(x=Fill(shape_spec))]))[0]
     if position == 'invoke-spec-arg':
         return glom(t, Invoke(lambda x: x).specs(Fill(shape_spec)))
     raise AssertionError(position)
@@ -694,7 +699,7 @@ def eval_in_position(position, shape_spec):
 
 def run_shape(case):
     position, term = case
-    pos_kind = 'fill' if position in ('fill', 'invoke-spec-arg') else 'arg'
+    pos_kind = 'fill' if position in ('fill', 'invoke-spec-arg', 'match>invoke-kwarg-spec', 'group>invoke-kwarg-spec') else 'arg'
     containers = []
     try:
         spec, want = build_shape(term, pos_kind, {}, {}, containers)
